@@ -62,6 +62,15 @@ type c10Case struct {
 	CType  string   `json:"ctype"`
 	Hdr    *string  `json:"hdr"` // raw header value (plain ASCII), null = header not sent
 	Reqs   []c10Req `json:"reqs"` // k=reauth: the POST /auth requests sent one after the other on ONE connection
+	Steps  []c10Step `json:"steps"` // k=seq: the handshakes made, one after the other, from ONE *client.Config
+}
+
+// c10Step: one client.NewClient call on the shared Config object of a k=seq case
+type c10Step struct {
+	Hdr   *string `json:"hdr"`   // the Hysteria-CC-RX this handshake is answered with (null: header missing)
+	CTx   *uint64 `json:"ctx"`   // the caller writes this into config.BandwidthConfig.MaxTx before the handshake (null: leaves it alone)
+	CRx   *uint64 `json:"crx"`   // the same for MaxRx
+	Close bool    `json:"close"` // the client is closed before the next handshake (else all stay open to the end)
 }
 
 type c10Req struct {
@@ -784,6 +793,141 @@ func c10RawResp(c c10Case, res map[string]any) {
 	}
 }
 
+// c10Seq: SEVERAL handshakes made from ONE *client.Config object (client.NewClient keeps the pointer; a reconnecting
+// client may be handed the same object by its configFunc every time, Config carries the `filled` flag for it), each
+// answered 233 by a bare HTTP/3 server with its own Hysteria-CC-RX: auto / numbers / 0 / missing / junk in any order.
+// Between two handshakes the caller may write new limits into the object (its own writes are the only ones that count).
+// Verdict (implementation alone), per handshake: the reported and the installed rate are what c10ClientWant prescribes
+// for (the limits the CALLER put into the object, THIS answer) - what a fresh Config would give; the receive rate the
+// client declares is the caller's; after NewClient returns the object's bandwidth fields are what the caller had
+// written; and at the end the controllers of the connections still open are the ones read after their handshakes.
+func c10Seq(c c10Case, res map[string]any) {
+	v := &c10Verdict{ok: true}
+	defer v.store(res)
+	pc, err := net.ListenUDP("udp", &net.UDPAddr{IP: net.IPv4(127, 0, 0, 1), Port: 0})
+	if err != nil {
+		v.fail("listen: %v", err)
+		return
+	}
+	defer pc.Close()
+	tr := &quic.Transport{Conn: pc}
+	defer tr.Close()
+	ln, err := tr.Listen(http3.ConfigureTLSConfig(&tls.Config{Certificates: []tls.Certificate{c10TLS()}}),
+		&quic.Config{EnableDatagrams: true, MaxDatagramFrameSize: protocol.MaxDatagramFrameSize,
+			AssumePeerMaxDatagramFrameSize: protocol.MaxDatagramFrameSize})
+	if err != nil {
+		v.fail("quic listen: %v", err)
+		return
+	}
+	defer ln.Close()
+	var mu sync.Mutex
+	gotReq := map[int]string{} // connection number (accept order = handshake order: they are made one after the other) -> declared rx
+	go func() {
+		for idx := 0; ; idx++ {
+			conn, err := ln.Accept(context.Background())
+			if err != nil {
+				return
+			}
+			i := idx
+			h3 := &http3.Server{Handler: http.HandlerFunc(func(w http.ResponseWriter, r *http.Request) {
+				mu.Lock()
+				gotReq[i] = r.Header.Get(protocol.CommonHeaderCCRX)
+				mu.Unlock()
+				w.Header().Set(protocol.ResponseHeaderUDPEnabled, "true")
+				if i < len(c.Steps) && c.Steps[i].Hdr != nil {
+					w.Header().Set(protocol.CommonHeaderCCRX, *c.Steps[i].Hdr)
+				}
+				w.WriteHeader(protocol.StatusAuthOK)
+			})}
+			go func() { _ = h3.ServeQUICConn(conn) }()
+		}
+	}()
+	// THE Config object, created once
+	cfg := &client.Config{
+		ServerAddr:       pc.LocalAddr(),
+		TLSConfig:        client.TLSConfig{InsecureSkipVerify: true},
+		CongestionConfig: client.CongestionConfig{Type: c.CType},
+		BandwidthConfig:  client.BandwidthConfig{MaxTx: c.CTx, MaxRx: c.CRx},
+	}
+	curTx, curRx := c.CTx, c.CRx // what the caller has written
+	type openConn struct {
+		i    int
+		cl   client.Client
+		kind string
+		bps  int64
+	}
+	var open []openConn
+	defer func() {
+		for _, o := range open {
+			_ = o.cl.Close()
+		}
+	}()
+	steps := make([]map[string]any, 0, len(c.Steps))
+	res["steps"] = steps
+	for i, st := range c.Steps {
+		if st.CTx != nil {
+			cfg.BandwidthConfig.MaxTx = *st.CTx
+			curTx = *st.CTx
+		}
+		if st.CRx != nil {
+			cfg.BandwidthConfig.MaxRx = *st.CRx
+			curRx = *st.CRx
+		}
+		who := fmt.Sprintf("handshake %d (config up=%d, answered %s): client", i, curTx, c10ShowHdr(st.Hdr))
+		before := cfg.BandwidthConfig
+		cl, info, err := client.NewClient(cfg)
+		if err != nil {
+			res["err"] = "client"
+			v.fail("%s: handshake failed: %v", who, err)
+			return
+		}
+		ck, cb := c10Installed(c10ClientConn(cl))
+		after := cfg.BandwidthConfig
+		mu.Lock()
+		rq, haveRq := gotReq[i]
+		mu.Unlock()
+		so := map[string]any{"info_tx": info.Tx, "c_kind": ck, "c_bps": cb, "tx_after": after.MaxTx, "rx_after": after.MaxRx}
+		if haveRq {
+			so["req_hdr"] = hex.EncodeToString([]byte(rq))
+		}
+		steps = append(steps, so)
+		res["steps"] = steps
+		if !haveRq {
+			res["err"] = "observe"
+			v.fail("%s: the server never saw the auth request", who)
+			_ = cl.Close()
+			return
+		}
+		if rq != strconv.FormatUint(curRx, 10) {
+			v.failc("seq-declared", "%s: declared rx %q, the caller's Config says %d", who, rq, curRx)
+		}
+		if after != before {
+			// (reported at the handshake that did it; the rate verdicts below keep using what the CALLER wrote)
+			v.failc("seq-config-modified", "%s: NewClient modified the caller's Config: BandwidthConfig was {MaxTx:%d MaxRx:%d DisableLossCompensation:%v} when it was called, is {MaxTx:%d MaxRx:%d DisableLossCompensation:%v} now (the caller wrote MaxTx:%d MaxRx:%d)",
+				who, before.MaxTx, before.MaxRx, before.DisableLossCompensation, after.MaxTx, after.MaxRx, after.DisableLossCompensation, curTx, curRx)
+		}
+		auto := st.Hdr != nil && *st.Hdr == "auto"
+		decl, wf, _ := c10Declared(st.Hdr)
+		if !(auto || wf) {
+			decl = 0 // missing / malformed / beyond uint64: for the client all of these give min = own limit (see c10RawResp)
+		}
+		cf, cr := c10ClientWant(auto, curTx, decl)
+		c10Side(v, who, cf, cr, c10ConfiguredKind(c.CType), info.Tx, ck, cb)
+		if st.Close {
+			_ = cl.Close()
+		} else {
+			open = append(open, openConn{i, cl, ck, cb})
+		}
+	}
+	for _, o := range open {
+		k, b := c10Installed(c10ClientConn(o.cl))
+		if k != o.kind || b != o.bps {
+			v.failc("seq-earlier-connection", "connection of handshake %d: controller was %s@%d after its handshake, is %s@%d after the later handshakes on the same Config",
+				o.i, o.kind, o.bps, k, b)
+		}
+	}
+}
+
 // ---------------------------------------------------------------- driver
 
 func c10Floor() uint64 {
@@ -853,6 +997,8 @@ func TestVerifC10(t *testing.T) {
 			run(c10RawResp)
 		case "reauth":
 			run(c10Reauth)
+		case "seq":
+			run(c10Seq)
 		default:
 			t.Fatalf("unknown case kind %q", c.K)
 		}
